@@ -103,6 +103,9 @@ impl HuginnNetTls {
     /// Configure packet filtering (builder pattern)
     pub fn with_filter(mut self, config: FilterConfig) -> Self {
         self.filter_config = Some(config);
+        // A pool that was initialized before carries the previous filter (or none) in its
+        // workers: drop it, the next init_pool / analyze_* call builds one with this filter.
+        self.worker_pool = None;
         self
     }
 
